@@ -1,8 +1,8 @@
 """C17 ELBO and VI (structural clauses, DESIGN §4-C17)."""
 from . import infer
-from . import c16
+from . import tables
 
 EXPLANATION = ("The elbo closure's symbolic value is compared (as a polynomial over resolved calls) with log p(merge(constraint, q choices)) + q score; "
                "the optimisation scan's carry/emit terms with params + lr·grad_estimate(params); families' covariance constructions; merge precedence.")
-RULES = [infer.elbo_rule, infer.optimize_rule, infer.families_rule, infer.elbo_vi_rule, c16.fn_merge_precedence]
+RULES = [infer.elbo_rule, infer.optimize_rule, infer.families_rule, infer.elbo_vi_rule, tables.fn_merge_table]
 FLOOR = 5
